@@ -18,6 +18,10 @@ pub struct Bounds {
     pub chain_dev: usize,
     /// net sweep deviation bound
     pub net_dev: u32,
+    /// the full deviation bound is applied to link prefixes with at most this many extensions / chains of at
+    /// most this length; longer ones get bound - 1
+    pub link_devmax_exts: usize,
+    pub net_devmax_chain: usize,
     /// cross sweep deviation bound
     pub cross_dev: u32,
     /// noise: maximal literal length
@@ -26,26 +30,28 @@ pub struct Bounds {
 
 pub fn bounds(tier: Tier) -> Bounds {
     if tier.is_thorough() {
-        Bounds { level: 1, link_exts: 4, link_dev: 2, chain0: 4, chain_dev: 3, net_dev: 2, cross_dev: 3, noise_len: 4 }
+        Bounds { level: 1, link_exts: 4, link_dev: 2, chain0: 4, chain_dev: 3, net_dev: 2, link_devmax_exts: 1, net_devmax_chain: 1, cross_dev: 3, noise_len: 4 }
     } else {
-        Bounds { level: 0, link_exts: 3, link_dev: 1, chain0: 3, chain_dev: 2, net_dev: 1, cross_dev: 2, noise_len: 3 }
+        Bounds { level: 0, link_exts: 3, link_dev: 1, chain0: 3, chain_dev: 2, net_dev: 1, link_devmax_exts: 3, net_devmax_chain: 2, cross_dev: 2, noise_len: 3 }
     }
 }
 
 pub fn describe_bounds(tier: Tier) -> String {
     let b = bounds(tier);
     format!(
-        "link sweep: entries {{eth2, sll, ether-type}} x all sequences of <= {} link extensions over {} variants x 12 net/transport suffixes (4 with deviations), <= {} deviation(s) in the link part; \
-         net sweep: 6 link prefixes x {{ipv4, ipv4+ah, ipv6 + every extension chain of length <= {} ({} with deviations) over {{hbh,dest,routing,frag,ah}}}} x {} transports, <= {} deviation(s) in the net/transport part; \
+        "link sweep: entries {{eth2, sll, ether-type}} x all sequences of <= {} link extensions over {} variants x 12 net/transport suffixes (4 with deviations), <= {} deviation(s) in different layers of the link part (prefixes with more than {} extensions: one less) + all pairs of deviations inside one layer; \
+         net sweep: 6 link prefixes x {{ipv4, ipv4+ah, ipv6 + every extension chain of length <= {} ({} with deviations) over {{hbh,dest,routing,frag,ah}}}} x {} transports, <= {} deviation(s) in different layers of the net/transport part (chains longer than {}: one less) + all in-layer pairs; \
          cross sweep: <= {} deviations anywhere over 30 reduced stackings; noise sweep: all literals of length <= {} over {{00,01,45,60,7f,80,ff}} + 0..64 filler bytes for every door; \
          every packet is closed by trailers {{0,1,5}} behind the innermost length field and by EVERY truncation point (layers > 192 B: boundaries and every 64th byte); every suffix starting at a layer boundary is also a case under the door its parent announces",
         b.link_exts,
         link_ext_alphabet(b.level).len(),
         b.link_dev,
+        b.link_devmax_exts,
         b.chain0,
         b.chain_dev,
         transports(b.level).len(),
         b.net_dev,
+        b.net_devmax_chain,
         b.cross_dev,
         b.noise_len
     )
@@ -269,7 +275,8 @@ pub fn run_unit(tier: Tier, u: u64, ctx: &mut Ctx, check: CheckFn) {
                     continue;
                 }
                 let nlink = link.len();
-                for k in 1..=b.link_dev {
+                let kmax = if pre.len() <= b.link_devmax_exts { b.link_dev } else { b.link_dev.saturating_sub(1).max(1) };
+                for k in 1..=kmax {
                     let mut f = |s: &[L], first: usize| {
                         // only deviations inside the link part
                         if s[nlink..].iter().any(|l| !l.dev.is_empty() && l.dev != "c9") {
@@ -329,7 +336,8 @@ pub fn run_unit(tier: Tier, u: u64, ctx: &mut Ctx, check: CheckFn) {
             if chain_len > b.chain_dev {
                 continue;
             }
-            for k in 1..=b.net_dev {
+            let kmax = if chain_len <= b.net_devmax_chain { b.net_dev } else { b.net_dev.saturating_sub(1).max(1) };
+            for k in 1..=kmax {
                 with_devs(&stack, nlink, k, b.level, &mut |s: &[L], first: usize| {
                     emit(ctx, *door, s, &tr, Cuts::From(first.min(s.len() - 1)), check);
                 });
